@@ -40,9 +40,31 @@ fn check_fresh(si: usize) -> Option<(String, String)> {
     match r { Ok(Ok(())) => None, Ok(Err(e)) => Some(e), Err(p) => Some((format!("panic:{}", panic_site(&p)), p)) }
 }
 
+/// Object files that only a reader can produce: blocks that wrap from the top of the address space to x0000 (addr_iter and the loader
+/// support them; the assembler rejects them). Made by re-addressing the block of a serialized file and reading it back.
+fn wrapped_objs() -> &'static Vec<crate::gen::objs::ObjCase> {
+    use lc3_ensemble::asm::encoding::{BinaryFormat, ObjFileFormat};
+    static W: OnceLock<Vec<crate::gen::objs::ObjCase>> = OnceLock::new();
+    W.get_or_init(|| {
+        let mut v = vec![];
+        for (src, origs) in [(".orig x3000\n.fill x1111\n.fill x2222\n.fill x3333\n.fill x4444\n.fill x5555\n.end", vec![0xFFFDu16, 0xFFFF, 0xFFFB, 0xFFFC]),
+                             (".orig x3000\n.fill x1111\n.blkw 2\n.fill x4444\n.blkw 1\n.fill x6666\n.end", vec![0xFFFD, 0xFFFE, 0xFFFA]),
+                             (".orig x3000\n.blkw 4\n.end", vec![0xFFFE])] {
+            let Ok(ast) = parse_ast(src) else { continue }; let Ok(o) = assemble(ast) else { continue };
+            let bytes = BinaryFormat::serialize(&o);
+            // layout: 7-byte header, then the code chunk: tag 0, origin (u16 LE), length (u16 LE), words
+            if bytes.len() < 12 || bytes[7] != 0 || bytes[8] != 0x00 || bytes[9] != 0x30 { continue; }
+            for orig in origs {
+                let mut b = bytes.clone(); b[8] = orig as u8; b[9] = (orig >> 8) as u8;
+                if let Some(obj) = BinaryFormat::deserialize(&b) { v.push(crate::gen::objs::ObjCase { desc: format!("block of `{}` re-addressed to x{orig:04X} (wraps to x0000)", src.replace('\n', " / ")), obj }); }
+            }
+        }
+        v
+    })
+}
 fn check_load(oi: usize, si: usize, mode: u8, thorough: bool) -> Option<(String, String)> {
     let fam = objrt::family(thorough);
-    let c = &fam[oi];
+    let c = if oi < fam.len() { &fam[oi] } else { wrapped_objs().get(oi - fam.len())? };
     if c.obj.symbol_table().map(|s| s.label_iter().any(|(_, _, e)| e)).unwrap_or(false) { return None; } // unresolved externals: out of scope (C21)
     let r = catch(|| -> Result<(), (String, String)> {
         let mut sim = Simulator::new(SimFlags { machine_init: STRATS[si], ..Default::default() });
@@ -75,7 +97,7 @@ fn check_load(oi: usize, si: usize, mode: u8, thorough: bool) -> Option<(String,
 }
 
 pub fn run(ctx: &Ctx) -> Report {
-    let mut rep = Report::new("fresh simulators under Known(0), Known(xA5A5), Seeded(7), Seeded(u64::MAX), Unseeded: OS image (subject's os.asm through the separately checked assembler) at its addresses, xFE00-xFFFF zero; every object of the family without unresolved externals (blocks at x0000, ending at xFE00, .blkw regions, multi-block, linked) x strategy x {fresh, loaded twice, after 10 executed steps}: full 64K before/after comparison: initialized words set and marked initialized, reserved words marked uninitialized, every other word, all registers, PC and PSR bit-identical. non-trivial = object with at least one block");
+    let mut rep = Report::new("fresh simulators under Known(0), Known(xA5A5), Seeded(7), Seeded(u64::MAX), Unseeded: OS image (subject's os.asm through the separately checked assembler) at its addresses, xFE00-xFFFF zero; every object of the family without unresolved externals, plus read-only object files whose block wraps from xFFFx to x0000 (blocks at x0000, ending at xFE00, .blkw regions, multi-block, linked) x strategy x {fresh, loaded twice, after 10 executed steps}: full 64K before/after comparison: initialized words set and marked initialized, reserved words marked uninitialized, every other word, all registers, PC and PSR bit-identical. non-trivial = object with at least one block");
     for si in 0..STRATS.len() { rep.acc.evals += 1; rep.acc.transitions += 1; if let Some((sig, d)) = check_fresh(si) { rep.acc.violation(sig, format!("fresh:{si}"), d); } }
     let fam = objrt::family(ctx.thorough());
     let stride = ctx.pick(2u64, 1u64);
@@ -90,6 +112,15 @@ pub fn run(ctx: &Ctx) -> Report {
         if let Some((sig, d)) = check_load(oi, si, mode, ctx.thorough()) { acc.violation(sig, format!("load:{}:{oi}:{si}:{mode}", ctx.thorough() as u8), d); }
     });
     rep.absorb(r);
+    let nw = wrapped_objs().len() as u64;
+    let fl = fam.len();
+    let r = sweep(ctx, nw * 5 * 3, 2, |k, acc| {
+        let oi = fl + (k / 15) as usize; let si = (k / 3 % 5) as usize; let mode = (k % 3) as u8;
+        acc.evals += 1; acc.transitions += 2; acc.nontrivial += 1; acc.count("wrapping_block_loads", 1);
+        if let Some((sig, d)) = check_load(oi, si, mode, ctx.thorough()) { acc.violation(sig, format!("load:{}:{oi}:{si}:{mode}", ctx.thorough() as u8), d); }
+    });
+    rep.absorb(r);
+    rep.require(nw >= 6, "object files with wrapping blocks could be read back");
     rep.bound("objects", Json::i(n)); rep.bound("strategies", Json::i(5)); rep.bound("modes", Json::s("fresh, loaded twice, after execution"));
     rep.assume("the OS image is obtained by assembling /repo/src/os.asm with the subject's assembler, which C01 checks separately");
     rep
